@@ -81,6 +81,16 @@ Proof. vm_compute. split; reflexivity. Qed.
 Lemma opts_flow_checked : opts_flow_ok json_opts_flow = true.
 Proof. vm_compute. reflexivity. Qed.
 
+(* the four header checks the round trip relies on are applied whatever the options are (top-level rejects of
+   FileHeader.ValidateWith before the first option-dependent statement), and they are the regenerated core rules *)
+Lemma header_core_checks :
+  header_checks_ok json_opts_flow
+    ["len(FileIDModifier) != 1"; "recordSize != ""094"""; "blockingFactor != ""10"""; "formatCode != ""1"""] = true /\
+  len_pinned hdr_core_rules "FileIDModifier" = true /\
+  pins hdr_core_rules "recordSize" (bstr "094") = true /\ pins hdr_core_rules "blockingFactor" (bstr "10") = true /\
+  pins hdr_core_rules "formatCode" (bstr "1") = true.
+Proof. vm_compute. repeat split; reflexivity. Qed.
+
 (* the two accessors the option-aware header line models are the ones the layout table hashes (any edit of their bodies
    changes the hash, which breaks this and the layout obligations of C01) *)
 Lemma header_accessors_pinned :
